@@ -47,6 +47,10 @@ CHECKS = {
    text="Children running under real uid R (0, 1, 999, 2^16-1, 2^16, 2^31-1, 2^31, 2^32-2) with an unrelated effective uid consult only_uid:L, exclude_uid:L and only_root through the production library for generated lists with near misses; outcomes are compared with exact set membership and only_uid xor exclude_uid.",
    note="Lists limited to one config line (about 85 uids)."),
 
+ "C15": dict(level="exploration", design="3/C15", technique="runtime monitoring under constructed process ancestries",
+   text="The driver builds real process chains of depth 1..12 (fork + prctl(PR_SET_NAME) per level) with generated kernel names (spaces, parentheses, exactly 15 and longer than 15 bytes, prefixes and case variants of each other); the leaf makes the wrapped call under exclude_spawns_of:<list>. logged <=> no ancestor (generated chain + the harness's real ancestors read from /proc, never the leaf itself) is in the list; with /proc hidden inside the driver's mount namespace the call must be logged whatever the list says.",
+   note="Names containing ',' ';' or '\"' cannot be expressed in a filter_chain value and are not generated."),
+
  "C16": dict(level="exploration", design="3/C16", technique="runtime monitoring: before/at-real-exec/after snapshots of process state + interposed allocator with backtrace attribution",
    text="For runs of one warm-up plus 2..200 wrapped calls under generated configurations (every data source, every output including unreachable, full and unwritable sinks, filters with empty arguments, invalid and duplicate options, error logging), uids, stdin kinds and controlling ttys, the driver compares /proc/self/fd (targets + cloexec), environ pointer and hash, cwd, umask, signal mask, all sigactions and the lock depth before the call, at the instant the real exec is entered and after return; an interposed allocator attributes live blocks to Snoopy by backtrace and demands that nothing allocated during a call is live at the real exec and that the live count does not grow over the run. Thread-safe and non-thread-safe builds.",
    note="Allocator attribution by backtrace (first 10 frames); libc one-time caches absorbed by the warm-up call; the strace-injected error paths share this oracle in the C03 check's residue arm."),
